@@ -826,6 +826,7 @@ T_FIN = "{{ none }}{{ 1 + 2 }}{{ 'a' ~ @V@ }}{{ x }}v@V@"
 T_ERR = "line1 v@V@\n{{ x }}\n{{ 1 // zero }}"
 T_NL = "a v@V@\nb\r\nc{{ x }}\n"
 T_SMALL = "{{ x }}v@V@"
+T_SELF = T_MAIN + "{{ self }}"  # names the template the code was compiled for
 T_TRANS = "{% trans %}  hello\n  {{ x }}  {% endtrans %}v@V@"
 
 D = {"loader": "dict"}
@@ -841,7 +842,7 @@ CRASH_SRCS = [T_MAIN, T_CALL, T_SMALL, T_ERR]
 STRUCT_POINTS = [["tmp_before"], ["tmp_after"], ["close_after"], ["replace_before"], ["replace_after"]]
 
 EQUAL_PAIRS = [
-    (spec(), spec(), {"a": T_MAIN, "b": T_MAIN}),
+    (spec(), spec(), {"a": T_SELF, "b": T_SELF}),
     (spec("fsA"), spec("fsB"), {"a": T_ERR, "b": T_ERR}),
     (spec(autoescape=True, enable_async=True, trim_blocks=True), spec(autoescape=True, enable_async=True, trim_blocks=True),
      {"a": T_CALL, "b": T_ERR}),
